@@ -205,6 +205,36 @@ func dischargeAll(obls []*Obligation, dir string, timeoutS int, cross bool, work
 	}
 	close(ch)
 	wg.Wait()
+	// second chance for undecided obligations: fewer in parallel, three times the budget
+	// (a loaded machine must not turn a slow proof into an alarm)
+	var retry []int
+	for i, ob := range obls {
+		if ob.Trivial || strings.HasPrefix(ob.Kind, "cover") {
+			continue
+		}
+		if ob.Result == "timeout" || ob.Result == "unknown" || ob.Result == "error" {
+			retry = append(retry, i)
+		}
+	}
+	if len(retry) > 0 && len(retry) <= 64 {
+		var wg2 sync.WaitGroup
+		sem := make(chan struct{}, 4)
+		for _, i := range retry {
+			wg2.Add(1)
+			go func(i int) {
+				defer wg2.Done()
+				sem <- struct{}{}
+				defer func() { <-sem }()
+				t := timeoutS * 3
+				if obls[i].TimeoutS > timeoutS {
+					t = obls[i].TimeoutS * 3
+				}
+				obls[i].TimeoutS = 0
+				discharge(obls[i], dir, i, t, cross)
+			}(i)
+		}
+		wg2.Wait()
+	}
 }
 
 var quantMemo sync.Map
@@ -224,4 +254,28 @@ func hasQuant(t *Term) bool {
 	}
 	quantMemo.Store(t, r)
 	return r
+}
+
+// feasible asks the primary solver whether a path condition is satisfiable (2 s budget;
+// anything but a definite "unsat" counts as feasible).
+func (e *Exec) feasible(st State) bool {
+	if st.pcFalse() {
+		return false
+	}
+	e.nFeas++
+	as := append([]*Term{}, e.axioms...)
+	as = append(as, st.pcList()...)
+	last := as[len(as)-1]
+	as = append(e.c.relevant(as[:len(as)-1], last), last)
+	script := e.c.Script(as, false)
+	f, err := os.CreateTemp("", "kvc-feas-*.smt2")
+	if err != nil {
+		return true
+	}
+	f.WriteString(script)
+	f.Close()
+	defer os.Remove(f.Name())
+	r := runSolver(solvers[0], f.Name(), 2)
+	atomic.AddInt64(&solverSeconds, r.ms)
+	return r.res != "unsat"
 }
